@@ -453,7 +453,12 @@ class GcodeHandlers(object):
                     # Note: 1.0 Marlin and earlier stored an offset for E instead of directly
                     #   updating the position.
                     # This assumes the newer behavior
+                    # G92 always assigns the given coordinate, also when the extruder is in relative
+                    # mode (where setLogicalPosition would treat the value as an offset)
+                    eAxisAbsoluteMode = position.E_AXIS.absoluteMode
+                    position.E_AXIS.absoluteMode = True
                     position.E_AXIS.setLogicalPosition(value)
+                    position.E_AXIS.absoluteMode = eAxisAbsoluteMode
                 elif (label == "X"):
                     position.X_AXIS.setLogicalOffsetPosition(value)
                 elif (label == "Y"):
